@@ -238,13 +238,15 @@ DecBin(w) ==
 \* ----------------------------------------------------------- slatepack ----
 (* Slatepacker::create_slatepack: payload = binary V4 slate; sender from the
    args; try_encrypt_payload(recipients): no recipients -> unchanged; else the
-   sender moves into encrypted_meta (and STAYS in that struct field), the
-   payload becomes age(R, meta-bin ++ payload), mode = 1.  Abs_Age. *)
+   sender moves into encrypted_meta, the payload becomes age(R, meta-bin ++
+   payload), mode = 1, and encrypted_meta is reset to its default (since the
+   fix "do not keep a clear copy of the encrypted slatepack metadata"; before
+   it the copy stayed in the struct and the JSON form showed it).  Abs_Age. *)
 Pack(v, env, encrypted) ==
   IF ~encrypted
   THEN [mode |-> 0, sender |-> env.snd, metasender |-> FALSE,
         payload |-> [R |-> {}, innersender |-> FALSE, body |-> EncBin(v)]]
-  ELSE [mode |-> 1, sender |-> FALSE, metasender |-> env.snd,
+  ELSE [mode |-> 1, sender |-> FALSE, metasender |-> FALSE,
         payload |-> [R |-> 1..env.nrec, innersender |-> env.snd, body |-> EncBin(v)]]
 
 \* bech32 of a 32 byte key: hrp + "1" + 52 data characters + 6 checksum characters
